@@ -69,6 +69,12 @@ WHITELIST = [
     ("generate_ordered_map_to_left_remaining", ["int", "arr", "arr", "int", "int", "int", "int"]),
     ("generate_ordered_map_to_left_right_unique_remaining", ["int", "arr", "int", "int", "int"]),
     ("generate_ordered_map_to_left_partial", ["arr", "int", "arr", "int", "arr", "arr"] + ["int"] * 10 + ["bool"]),
+    ("generate_ordered_map_to_left_left_unique_partial", ["arr", "arr", "int", "arr", "arr"] + ["int"] * 6),
+    ("generate_ordered_map_to_left_right_unique_partial", ["arr", "int", "arr", "arr"] + ["int"] * 5),
+    ("generate_ordered_map_to_inner_partial", ["arr", "int", "arr", "int", "arr", "arr"] + ["int"] * 9 + ["bool"]),
+    ("generate_ordered_map_to_inner_left_unique_partial", ["arr", "int", "arr", "int", "arr", "arr"] + ["int"] * 5),
+    ("generate_ordered_map_to_inner_right_unique_partial", ["arr", "int", "arr", "int", "arr", "arr"] + ["int"] * 5),
+    ("generate_ordered_map_to_inner_both_unique_partial", ["arr", "int", "arr", "int", "arr", "arr"] + ["int"] * 5),
 ]
 
 LEAN_T = {"int": "Int", "bool": "Bool", "arr": "List Int", "barr": "List Bool", "opt_arr": "Option (List Int)"}
